@@ -82,6 +82,11 @@ StreamIoOk(ev, s) ==
          [] s.k = "ins_char16" -> s.out = Conv("utf8", "utf16", "assume", TRUE, ev.s).out
          [] s.k = "ins_char32" -> s.out = Conv("utf8", "utf32", "assume", TRUE, ev.s).out
          [] s.k = "ext_char" -> s.out = byname("ext_char_std").out
+         \* the target held the earlier token "old".  When the extraction stores something - a token, or the empty
+         \* string after the stream's sentry succeeded (noskipws on non-empty input) - ST::string must hold the same;
+         \* what a FAILED extraction leaves in the target is not part of the statement
+         [] s.k = "ext_char_reuse" -> byname("ext_char_reuse_std").out = <<111, 108, 100>> \/ s.out = byname("ext_char_reuse_std").out
+         [] s.k = "ext_char_nows" -> ev.s = <<>> \/ s.out = byname("ext_char_nows_std").out
          [] s.k = "ext_wchar" -> s.out = Conv(WcharEnc, "utf8", plat.dflt, TRUE, byname("ext_wchar_std").out).out
          [] OTHER -> TRUE
 StreamIoRecs(ev) ==
